@@ -1,0 +1,211 @@
+// Copyright 2020-2025 Buf Technologies, Inc.
+//
+// Licensed under the Apache License, Version 2.0 (the "License");
+// you may not use this file except in compliance with the License.
+// You may obtain a copy of the License at
+//
+//      http://www.apache.org/licenses/LICENSE-2.0
+//
+// Unless required by applicable law or agreed to in writing, software
+// distributed under the License is distributed on an "AS IS" BASIS,
+// WITHOUT WARRANTIES OR CONDITIONS OF ANY KIND, either express or implied.
+// See the License for the specific language governing permissions and
+// limitations under the License.
+
+//go:build verif
+
+package protoencoding
+
+// Contracts for the gocv verifier (contract author ca-B2). Comment-only.
+// Spec functions, ghost variables (b2_*) and the interface-level sinks: /verif/specs/C11_formats.spec.
+//
+// C11 "a built image written in any supported encoding ... and read back equals the original": every constructor
+// returns the codec OF ITS OWN FORMAT (b2_marshalerEnc / b2_unmarshalerEnc: 1 binpb, 2 json, 3 txtpb, 4 yaml) holding
+// the resolver it was given (EmptyResolver for nil); every Marshal hands the third-party encoder that resolver (custom
+// options can only be printed by name with it) and asks for deterministic output where the encoder has such an option.
+// The third-party encoders are trusted sinks (results arbitrary).
+//@ trusted func (protojson.MarshalOptions) Marshal(m) (data, err)
+//@ trusted func (prototext.MarshalOptions) Marshal(m) (data, err)
+//@ trusted func (protoyaml.MarshalOptions) Marshal(message) (data, err)
+//@ trusted func (proto.MarshalOptions) Marshal(m) (data, err)
+//
+// ---- constructors: the codec of the named format, with the given resolver ----
+//@ func newWireMarshaler() (r)
+//@   property C11
+//@   ensures binpb-encoder: r != nil && b2_marshalerEnc(r) == 1
+//@ func NewWireMarshaler() (r)
+//@   property C11
+//@   ensures binpb-encoder: r != nil && b2_marshalerEnc(r) == 1
+//
+//@ func newJSONMarshaler(resolver, options) (r)
+//@   property C11
+//@   modifies heap, ghost.fail, ghost.wfail, ghost.b2_codecResolver
+//@   ghost after "jsonMarshaler := &jsonMarshaler{" b2_codecResolver := put(ghost.b2_codecResolver, jsonMarshaler, resolver)
+//@   ensures json-encoder: r != nil && b2_marshalerEnc(r) == 2
+//@   ensures given-resolver: resolver != nil ==> ghost.b2_codecResolver[r] == resolver
+//@   ensures no-resolver-is-empty-resolver: resolver == nil ==> ghost.b2_codecResolver[r] == EmptyResolver
+//@   ensures resolver-stored: len(options) == 0 ==> cast(*jsonMarshaler, r).resolver == ghost.b2_codecResolver[r]
+//@   ensures others-kept: forall x ref :: x != r ==> ghost.b2_codecResolver[x] == old(ghost.b2_codecResolver)[x]
+//@   loop 0 invariant no-option-no-change: len(options) == 0 ==> jsonMarshaler.resolver == resolver
+//@ func NewJSONMarshaler(resolver, options) (r)
+//@   property C11
+//@   modifies heap, ghost.fail, ghost.wfail, ghost.b2_codecResolver
+//@   ensures json-encoder: r != nil && b2_marshalerEnc(r) == 2
+//@   ensures given-resolver: resolver != nil ==> ghost.b2_codecResolver[r] == resolver
+//@   ensures no-resolver-is-empty-resolver: resolver == nil ==> ghost.b2_codecResolver[r] == EmptyResolver
+//@   ensures resolver-stored: len(options) == 0 ==> cast(*jsonMarshaler, r).resolver == ghost.b2_codecResolver[r]
+//@   ensures others-kept: forall x ref :: x != r ==> ghost.b2_codecResolver[x] == old(ghost.b2_codecResolver)[x]
+//
+//@ func newTxtpbMarshaler(resolver) (r)
+//@   property C11
+//@   ensures txtpb-encoder: r != nil && b2_marshalerEnc(r) == 3
+//@   ensures given-resolver: resolver != nil ==> cast(*txtpbMarshaler, r).resolver == resolver
+//@   ensures no-resolver-is-empty-resolver: resolver == nil ==> cast(*txtpbMarshaler, r).resolver == EmptyResolver
+//@ func NewTxtpbMarshaler(resolver) (r)
+//@   property C11
+//@   ensures txtpb-encoder: r != nil && b2_marshalerEnc(r) == 3
+//@   ensures given-resolver: resolver != nil ==> cast(*txtpbMarshaler, r).resolver == resolver
+//@   ensures no-resolver-is-empty-resolver: resolver == nil ==> cast(*txtpbMarshaler, r).resolver == EmptyResolver
+//
+//@ func newYAMLMarshaler(resolver, options) (r)
+//@   property C11
+//@   modifies heap, ghost.fail, ghost.wfail, ghost.b2_codecResolver
+//@   ghost after "yamlMarshaler := &yamlMarshaler{" b2_codecResolver := put(ghost.b2_codecResolver, yamlMarshaler, resolver)
+//@   ensures yaml-encoder: r != nil && b2_marshalerEnc(r) == 4
+//@   ensures given-resolver: resolver != nil ==> ghost.b2_codecResolver[r] == resolver
+//@   ensures no-resolver-is-empty-resolver: resolver == nil ==> ghost.b2_codecResolver[r] == EmptyResolver
+//@   ensures resolver-stored: len(options) == 0 ==> cast(*yamlMarshaler, r).resolver == ghost.b2_codecResolver[r]
+//@   ensures others-kept: forall x ref :: x != r ==> ghost.b2_codecResolver[x] == old(ghost.b2_codecResolver)[x]
+//@   loop 0 invariant no-option-no-change: len(options) == 0 ==> yamlMarshaler.resolver == resolver
+//@ func NewYAMLMarshaler(resolver, options) (r)
+//@   property C11
+//@   modifies heap, ghost.fail, ghost.wfail, ghost.b2_codecResolver
+//@   ensures yaml-encoder: r != nil && b2_marshalerEnc(r) == 4
+//@   ensures given-resolver: resolver != nil ==> ghost.b2_codecResolver[r] == resolver
+//@   ensures no-resolver-is-empty-resolver: resolver == nil ==> ghost.b2_codecResolver[r] == EmptyResolver
+//@   ensures resolver-stored: len(options) == 0 ==> cast(*yamlMarshaler, r).resolver == ghost.b2_codecResolver[r]
+//@   ensures others-kept: forall x ref :: x != r ==> ghost.b2_codecResolver[x] == old(ghost.b2_codecResolver)[x]
+//
+// the decoders (their Unmarshal methods: zz_verif_contracts.go)
+//@ func newWireUnmarshaler(resolver) (r)
+//@   property C11
+//@   ensures binpb-decoder: r != nil && b2_unmarshalerEnc(r) == 1
+//@   ensures given-resolver: resolver != nil ==> cast(*wireUnmarshaler, r).resolver == resolver
+//@   ensures no-resolver-is-empty-resolver: resolver == nil ==> cast(*wireUnmarshaler, r).resolver == EmptyResolver
+//@ func NewWireUnmarshaler(resolver) (r)
+//@   property C11
+//@   ensures binpb-decoder: r != nil && b2_unmarshalerEnc(r) == 1
+//@   ensures given-resolver: resolver != nil ==> cast(*wireUnmarshaler, r).resolver == resolver
+//@   ensures no-resolver-is-empty-resolver: resolver == nil ==> cast(*wireUnmarshaler, r).resolver == EmptyResolver
+//@ func newJSONUnmarshaler(resolver, options) (r)
+//@   property C11
+//@   modifies heap, ghost.fail, ghost.wfail, ghost.b2_codecResolver
+//@   ghost after "jsonUnmarshaler := &jsonUnmarshaler{" b2_codecResolver := put(ghost.b2_codecResolver, jsonUnmarshaler, resolver)
+//@   ensures json-decoder: r != nil && b2_unmarshalerEnc(r) == 2
+//@   ensures given-resolver: resolver != nil ==> ghost.b2_codecResolver[r] == resolver
+//@   ensures no-resolver-is-empty-resolver: resolver == nil ==> ghost.b2_codecResolver[r] == EmptyResolver
+//@   ensures resolver-stored: len(options) == 0 ==> cast(*jsonUnmarshaler, r).resolver == ghost.b2_codecResolver[r] && !cast(*jsonUnmarshaler, r).disallowUnknown
+//@   ensures others-kept: forall x ref :: x != r ==> ghost.b2_codecResolver[x] == old(ghost.b2_codecResolver)[x]
+//@   loop 0 invariant no-option-no-change: len(options) == 0 ==> jsonUnmarshaler.resolver == resolver && !jsonUnmarshaler.disallowUnknown
+//@ func NewJSONUnmarshaler(resolver, options) (r)
+//@   property C11
+//@   modifies heap, ghost.fail, ghost.wfail, ghost.b2_codecResolver
+//@   ensures json-decoder: r != nil && b2_unmarshalerEnc(r) == 2
+//@   ensures given-resolver: resolver != nil ==> ghost.b2_codecResolver[r] == resolver
+//@   ensures no-resolver-is-empty-resolver: resolver == nil ==> ghost.b2_codecResolver[r] == EmptyResolver
+//@   ensures resolver-stored: len(options) == 0 ==> cast(*jsonUnmarshaler, r).resolver == ghost.b2_codecResolver[r]
+//@   ensures others-kept: forall x ref :: x != r ==> ghost.b2_codecResolver[x] == old(ghost.b2_codecResolver)[x]
+//@ func newTxtpbUnmarshaler(resolver) (r)
+//@   property C11
+//@   ensures txtpb-decoder: r != nil && b2_unmarshalerEnc(r) == 3
+//@   ensures given-resolver: resolver != nil ==> cast(*txtpbUnmarshaler, r).resolver == resolver
+//@   ensures no-resolver-is-empty-resolver: resolver == nil ==> cast(*txtpbUnmarshaler, r).resolver == EmptyResolver
+//@ func NewTxtpbUnmarshaler(resolver) (r)
+//@   property C11
+//@   ensures txtpb-decoder: r != nil && b2_unmarshalerEnc(r) == 3
+//@   ensures given-resolver: resolver != nil ==> cast(*txtpbUnmarshaler, r).resolver == resolver
+//@   ensures no-resolver-is-empty-resolver: resolver == nil ==> cast(*txtpbUnmarshaler, r).resolver == EmptyResolver
+//@ func newYAMLUnmarshaler(resolver, options) (r)
+//@   property C11
+//@   modifies heap, ghost.fail, ghost.wfail, ghost.b2_codecResolver
+//@   ghost after "result := &yamlUnmarshaler{" b2_codecResolver := put(ghost.b2_codecResolver, result, resolver)
+//@   ensures yaml-decoder: r != nil && b2_unmarshalerEnc(r) == 4
+//@   ensures given-resolver: resolver != nil ==> ghost.b2_codecResolver[r] == resolver
+//@   ensures no-resolver-is-empty-resolver: resolver == nil ==> ghost.b2_codecResolver[r] == EmptyResolver
+//@   ensures resolver-stored: len(options) == 0 ==> cast(*yamlUnmarshaler, r).resolver == ghost.b2_codecResolver[r]
+//@   ensures others-kept: forall x ref :: x != r ==> ghost.b2_codecResolver[x] == old(ghost.b2_codecResolver)[x]
+//@   loop 0 invariant no-option-no-change: len(options) == 0 ==> result.resolver == resolver
+//@ func NewYAMLUnmarshaler(resolver, options) (r)
+//@   property C11
+//@   modifies heap, ghost.fail, ghost.wfail, ghost.b2_codecResolver
+//@   ensures yaml-decoder: r != nil && b2_unmarshalerEnc(r) == 4
+//@   ensures given-resolver: resolver != nil ==> ghost.b2_codecResolver[r] == resolver
+//@   ensures no-resolver-is-empty-resolver: resolver == nil ==> ghost.b2_codecResolver[r] == EmptyResolver
+//@   ensures resolver-stored: len(options) == 0 ==> cast(*yamlUnmarshaler, r).resolver == ghost.b2_codecResolver[r]
+//@   ensures others-kept: forall x ref :: x != r ==> ghost.b2_codecResolver[x] == old(ghost.b2_codecResolver)[x]
+//
+// the options touch their own field only (in particular never the resolver)
+//@ func JSONMarshalerWithUseProtoNames() (r)
+//@   property C11
+//@   closure 0 ensures own-field-only: jsonMarshaler.useProtoNames && jsonMarshaler.resolver == old(jsonMarshaler.resolver) && jsonMarshaler.useEnumNumbers == old(jsonMarshaler.useEnumNumbers) && jsonMarshaler.indent == old(jsonMarshaler.indent) && jsonMarshaler.emitUnpopulated == old(jsonMarshaler.emitUnpopulated)
+//@ func JSONMarshalerWithUseEnumNumbers() (r)
+//@   property C11
+//@   closure 0 ensures own-field-only: jsonMarshaler.useEnumNumbers && jsonMarshaler.resolver == old(jsonMarshaler.resolver) && jsonMarshaler.useProtoNames == old(jsonMarshaler.useProtoNames) && jsonMarshaler.indent == old(jsonMarshaler.indent) && jsonMarshaler.emitUnpopulated == old(jsonMarshaler.emitUnpopulated)
+//@ func YAMLMarshalerWithIndent() (r)
+//@   property C11
+//@   closure 0 ensures own-field-only: yamlMarshaler.indent == 2 && yamlMarshaler.resolver == old(yamlMarshaler.resolver) && yamlMarshaler.useProtoNames == old(yamlMarshaler.useProtoNames) && yamlMarshaler.useEnumNumbers == old(yamlMarshaler.useEnumNumbers) && yamlMarshaler.emitUnpopulated == old(yamlMarshaler.emitUnpopulated)
+//@ func YAMLMarshalerWithUseProtoNames() (r)
+//@   property C11
+//@   closure 0 ensures own-field-only: yamlMarshaler.useProtoNames && yamlMarshaler.resolver == old(yamlMarshaler.resolver) && yamlMarshaler.useEnumNumbers == old(yamlMarshaler.useEnumNumbers) && yamlMarshaler.indent == old(yamlMarshaler.indent) && yamlMarshaler.emitUnpopulated == old(yamlMarshaler.emitUnpopulated)
+//@ func YAMLMarshalerWithUseEnumNumbers() (r)
+//@   property C11
+//@   closure 0 ensures own-field-only: yamlMarshaler.useEnumNumbers && yamlMarshaler.resolver == old(yamlMarshaler.resolver) && yamlMarshaler.useProtoNames == old(yamlMarshaler.useProtoNames) && yamlMarshaler.indent == old(yamlMarshaler.indent) && yamlMarshaler.emitUnpopulated == old(yamlMarshaler.emitUnpopulated)
+//@ func YAMLUnmarshalerWithPath(path) (r)
+//@   property C11
+//@   closure 0 ensures own-field-only: yamlUnmarshaler.path == path && yamlUnmarshaler.resolver == old(yamlUnmarshaler.resolver) && yamlUnmarshaler.validator == old(yamlUnmarshaler.validator)
+//@ func YAMLUnmarshalerWithValidator(validator) (r)
+//@   property C11
+//@   closure 0 ensures own-field-only: yamlUnmarshaler.validator == validator && yamlUnmarshaler.resolver == old(yamlUnmarshaler.resolver) && yamlUnmarshaler.path == old(yamlUnmarshaler.path)
+//
+// ---- Marshal: the third-party encoder gets the codec's resolver; binpb is deterministic; JSON / YAML first re-parse
+// unrecognised fields and extensions with the same resolver (ReparseExtensions) so that custom options print by name;
+// an encoder failure is returned with no bytes ----
+//@ func (m *wireMarshaler) Marshal(message) (data, err)
+//@   property C11
+//@   modifies heap
+//@   assert before "data, err := options.Marshal(message)" deterministic-output: options.Deterministic
+//@   ensures failure-has-no-bytes: err != nil ==> isNilSlice(data)
+//@ func (m *jsonMarshaler) Marshal(message) (data, err)
+//@   property C11
+//@   modifies heap, ghost.s_unknown, ghost.b2_reparsedWith, ghost.fail, ghost.wfail
+//@   assert before "data, err := options.Marshal(message)" uses-the-resolver: options.Resolver == m.resolver
+//@   assert before "data, err := options.Marshal(message)" options-as-configured: options.UseProtoNames == m.useProtoNames && options.UseEnumNumbers == m.useEnumNumbers && options.EmitUnpopulated == m.emitUnpopulated && options.Indent == m.indent
+//@   assert before "options := protojson.MarshalOptions{" reparsed-with-the-resolver-first: old(m.resolver) != nil ==> ghost.b2_reparsedWith[message.ProtoReflect()] == old(m.resolver)
+//@   ensures failure-has-no-bytes: err != nil ==> isNilSlice(data)
+//@ func (m *txtpbMarshaler) Marshal(message) (data, err)
+//@   property C11
+//@   modifies heap
+//@   assert before "data, err := options.Marshal(message)" uses-the-resolver: options.Resolver == m.resolver
+//@   ensures failure-has-no-bytes: err != nil ==> isNilSlice(data)
+//@ func (m *yamlMarshaler) Marshal(message) (data, err)
+//@   property C11
+//@   modifies heap, ghost.s_unknown, ghost.b2_reparsedWith, ghost.fail, ghost.wfail
+//@   assert before "data, err := options.Marshal(message)" uses-the-resolver: options.Resolver == m.resolver
+//@   assert before "data, err := options.Marshal(message)" options-as-configured: options.UseProtoNames == m.useProtoNames && options.UseEnumNumbers == m.useEnumNumbers && options.EmitUnpopulated == m.emitUnpopulated && options.Indent == m.indent
+//@   assert before "options := protoyaml.MarshalOptions{" reparsed-with-the-resolver-first: old(m.resolver) != nil ==> ghost.b2_reparsedWith[message.ProtoReflect()] == old(m.resolver)
+//@   ensures failure-has-no-bytes: err != nil ==> isNilSlice(data)
+//
+// ---- ReparseExtensions ----
+//@ func ReparseExtensions(resolver, reflectMessage) (err)
+//@   property C11
+//@   modifies heap, ghost.s_unknown, ghost.b2_reparsedWith, ghost.fail, ghost.wfail
+//@   ghost before "reparseBytes := reflectMessage.GetUnknown()" b2_reparsedWith := put(ghost.b2_reparsedWith, reflectMessage, resolver)
+//@   ensures no-resolver-no-change: resolver == nil ==> err == nil && ghost.s_unknown == old(ghost.s_unknown) && ghost.b2_reparsedWith == old(ghost.b2_reparsedWith)
+//@   ensures recorded: resolver != nil ==> ghost.b2_reparsedWith[reflectMessage] == resolver
+//@   ensures same-resolver-below: forall x ref :: ghost.b2_reparsedWith[x] == old(ghost.b2_reparsedWith)[x] || (resolver != nil && ghost.b2_reparsedWith[x] == resolver)
+// nested messages are re-parsed with the SAME resolver (the only change to the record)
+//@ func reparseInField(resolver, fieldDescriptor, value) (err)
+//@   property C11
+//@   modifies heap, ghost.s_unknown, ghost.b2_reparsedWith, ghost.fail, ghost.wfail
+//@   ensures same-resolver-below: forall x ref :: ghost.b2_reparsedWith[x] == old(ghost.b2_reparsedWith)[x] || (resolver != nil && ghost.b2_reparsedWith[x] == resolver)
+//@   loop 0 invariant same-resolver-so-far: forall x ref :: ghost.b2_reparsedWith[x] == old(ghost.b2_reparsedWith)[x] || (resolver != nil && ghost.b2_reparsedWith[x] == resolver)
